@@ -453,7 +453,7 @@ pub(crate) mod b {
     /// C02 text sink: a text element has x, y and exactly one child, the escaped text
     #[test]
     fn bounded_text_node() {
-        let alphabet = ['<', '&', '>', '"', '\'', 'a', ';', '#', 'é', '一', '\0', '\u{1}', ' '];
+        let alphabet = ['<', '&', '>', '"', '\'', 'a', ';', '#', 'é', '一', '\0', '\u{1}', '\u{c}', '\u{7f}', '\u{fffe}', '\u{ffff}', ' '];
         let mut n = 0u64;
         for w in crate::buffer::cell_buffer::__verif::b::words(&alphabet, 3) {
             if w.is_empty() {
